@@ -102,6 +102,29 @@ class World:
             self.hdesc.append(nd)
             self.handles.append(new)
             return ["handle", len(self.handles) - 1], new, None
+        if kind == "bulk":
+            # scale: n distinct cheap types requested one after the other from one retort (loaders, or dumpers)
+            h = self.handles[op["h"]]
+            bad = []
+            for i in range(op["start"], op["start"] + op["n"]):
+                getter = h.get_dumper if op.get("dump") else h.get_loader
+                o, _ = outcome(getter, pools.bulk_type(i))
+                if o[0] != "ok" and len(bad) < 3:
+                    bad.append([i, o])
+            return ["bulk", op["n"], bad], None, None
+        if kind == "bulk_call":
+            # scale in the data dimension: one loader called with n distinct valid data, each result checked
+            fn, _tmpl = self.callables[op["c"]]
+            if fn is None:
+                return ["skipped"], None, None
+            g = pools.BULK_DATA[op["gen"]]
+            bad = []
+            for i in range(op["start"], op["start"] + op["n"]):
+                datum, expected = g(i)
+                o, res = outcome(fn, datum)
+                if (o[0] != "ok" or res != expected) and len(bad) < 3:
+                    bad.append([i, o])
+            return ["bulk", op["n"], bad], None, None
         if kind == "bind_late":
             pools.bind_late()
             self.late = True
